@@ -57,9 +57,9 @@ type c12run struct {
 	victim *simnode.Node
 	rx     *protocol.VerifReceiver
 	// honest traffic seen so far
-	txs    []*types.Transaction
-	blocks []*types.Block
-	msgs   []c12msg
+	txs        []*types.Transaction
+	blocks     []*types.Block
+	msgs       []c12msg
 	recovered  int
 	delivering bool
 	lastAuthor *scen.Ident
